@@ -9,6 +9,15 @@ spec = registry.SPECS[prop]()
 tasks = spec.tasks(tier, int(os.environ.get("VERIF_SEED", "0")))
 with pool.Context(zygote=getattr(spec, "zygote", True)) as ctx:
     res = pool.run_tasks(ctx, tasks, timeout=200)
+    if hasattr(spec, "second_phase"):
+        extra = spec.second_phase(tier, int(os.environ.get("VERIF_SEED", "0")), tasks, res)
+        if extra:
+            res += pool.run_tasks(ctx, extra, timeout=200); tasks += extra
+    import json
+    if os.environ.get("DUMP"):
+        for i, r in enumerate(res):
+            if any(v["key"] == os.environ["DUMP"] for v in r.get("violations", [])):
+                json.dump({"task": tasks[i], "res": r}, open("/tmp/dump.json", "w"), default=str); break
 c = collections.Counter(); ex = {}
 for i, r in enumerate(res):
     for v in r.get("violations", []):
